@@ -5,7 +5,7 @@
    _load_referenced_models, __call__), textx/model.py (parse_tree_to_objgraph: callback,
    ModelLoader loop, main-model resolution, object processors, the two exception
    handlers, _remove_all_affected_models_in_construction) and textx/metamodel.py
-   (internal_model_from_file: global cache, model processors).
+   (internal_model_from_file: global cache, model processors on freshly loaded models).
 
    Executable model only; proofs are in Proofs/RepoProofs.v.  The data-like facts
    (lookup order, which handlers clean up, registration before imports) come from
@@ -253,7 +253,8 @@ Definition finish_main (c : cfg) (f m : nat) (cached : list nat) (s1 : state) : 
 Definition load_main (fs : list file) (c : cfg) (f : nat) (s0 : state) : (err + nat) * state :=
   let s := begin_op c s0 in
   match (if cglobal c then dget f (allm s) else None) with
-  | Some m => if flag_of fmp m s then (inl (EMp f), s) else (inr m, s)   (* cached: processors re-run *)
+  | Some m =>   (* cached: the processors run again only if the source says so (Gen/SrcRepo.v) *)
+      if (model_processors_on_cached && flag_of fmp m s)%bool then (inl (EMp f), s) else (inr m, s)
   | None =>
       match load_file fs c (S (length fs)) true f s with
       | (inl e, s1) => (inl e, s1)
